@@ -95,23 +95,41 @@ def validate(srcdir):
     return results
 
 
-def run(ids, tier, props_override=None):
+def run(ids, tier, props_override=None, scratch=None):
+    """apply each seeded change, run its check, undo.  With scratch=<dir> a worktree of /repo HEAD is
+    created there and used as the tree under test (VERIF_REPO), so /repo itself is never touched."""
     out = []
+    repo = "/repo"
+    env = {}
+    if scratch:
+        sh("git -C /repo worktree remove --force %s" % scratch)
+        sh("git -C /repo worktree add -f %s HEAD" % scratch)
+        sh("cp /repo/biom/*.so /repo/biom/*.c %s/biom/" % scratch)
+        repo = scratch
+        env = {"VERIF_REPO": scratch}
+    try:
+        return _run(ids, tier, props_override, repo, env, out)
+    finally:
+        if scratch:
+            sh("git -C /repo worktree remove --force %s" % scratch)
+
+
+def _run(ids, tier, props_override, repo, env, out):
     for mid in ids:
         d = os.path.join(SEEDED, mid)
         meta = json.load(open(os.path.join(d, "meta.json")))
         props = props_override or [meta["property"]]
-        rc, o = sh("git -C /repo status --porcelain --untracked-files=no")
+        rc, o = sh("git -C %s status --porcelain --untracked-files=no" % repo)
         if o.strip():
-            print("refusing: /repo has local modifications")
+            print("refusing: %s has local modifications" % repo)
             sys.exit(2)
-        rc, o = sh("git -C /repo apply %s" % os.path.join(d, "patch.diff"))
+        rc, o = sh("git -C %s apply %s" % (repo, os.path.join(d, "patch.diff")))
         if rc != 0:
             print(mid, "PATCH-FAILS", o[-200:])
             continue
         try:
             for prop in props:
-                rc, o = sh("./check %s --tier %s" % (prop, tier), cwd=ROOT, timeout=7200)
+                rc, o = sh("./check %s --tier %s" % (prop, tier), cwd=ROOT, timeout=7200, env=env)
                 viol = [ln for ln in o.splitlines() if ln.startswith("VIOLATION")]
                 clauses = sorted({ln.split("clause=")[1].split()[0] for ln in viol if "clause=" in ln})
                 verdict = "DETECTED" if rc == 1 and viol else ("MACHINERY" if rc == 2 else "MISSED")
@@ -120,7 +138,7 @@ def run(ids, tier, props_override=None):
                     print(o[-600:])
                 out.append({"id": mid, "prop": prop, "verdict": verdict, "clauses": clauses, "tier": tier})
         finally:
-            sh("git -C /repo checkout -- .")
+            sh("git -C %s checkout -- ." % repo)
     return out
 
 
@@ -131,6 +149,7 @@ if __name__ == "__main__":
         args = sys.argv[2:]
         tier = "quick"
         props = None
+        scratch = None
         ids = []
         i = 0
         while i < len(args):
@@ -138,9 +157,11 @@ if __name__ == "__main__":
                 tier = args[i + 1]; i += 2
             elif args[i] == "--props":
                 props = args[i + 1].split(","); i += 2
+            elif args[i] == "--scratch":
+                scratch = args[i + 1]; i += 2
             else:
                 ids.append(args[i]); i += 1
         if not ids:
             ids = sorted(os.listdir(SEEDED))
-        res = run(ids, tier, props)
+        res = run(ids, tier, props, scratch)
         json.dump(res, open(os.path.join(ROOT, ".work_mutant_results.json"), "w"), indent=1)
